@@ -100,6 +100,11 @@ async def script(loop, ctx):
             forced = [("pop", "LIST", 1), ("pop", "STAT", 1), ("imap", "expunge", ("msg", 2)), ("pop", "TOP", 2), ("pop", "RETR", 2), ("pop", "LIST", 1), ("pop", "LISTN", 2), ("pop", "STAT", 1), ("pop", "UIDL", 1)]
             nsteps = max(nsteps, len(forced) + rnd.choice([0, 2]))
             counts["forced_sized_then_expunged_then_read"] += 1
+        if k % 6 == 2 and len(table) >= 3:
+            # the size of a message first announced by RETR (not by LIST/STAT); IMAP expunges it; LIST/STAT afterwards
+            forced = [("pop", "RETR", 2), ("imap", "expunge", ("msg", 2)), ("pop", "LIST", 1), ("pop", "LISTN", 2), ("pop", "STAT", 1), ("pop", "RETR", 3), ("pop", "STAT", 1)]
+            nsteps = max(nsteps, len(forced) + rnd.choice([0, 2]))
+            counts["forced_retr_then_expunged_then_listed"] += 1
         for step in range(nsteps):
             f = forced.pop(0) if forced else None
             r = rnd.random()
